@@ -6,8 +6,9 @@
      Rfr st cs l fs   at every nesting level k < |l|: every source name resolves in `skipn k l` (lookup_scopes)
                       iff it resolves in `skipn k fs` (find_in_function), to cells holding related values;
                       the first |l|-1 frames are block frames, frame |l|-1 is the function frame;
-     bij l fs         the induced relation between source cells and VM cells is one-to-one (no aliasing).
-   Registers (#n) are ignored: they are not source names. *)
+     bij l fs         the induced relation between source cells and VM cells is one-to-one (no aliasing);
+     NS l             no shadowing between scopes;  pin_ok_  VM cells outside the relation that keep their value.
+   Registers (#n) and loop registers (L#n) are ignored: they are not user names (uname). *)
 From MS Require Import Lang.Eval.
 From MS Require Import Vm.Model Lang.Syntax Compile.Compile Compile.ExprBase Compile.ExprSim.
 From Coq Require Import Lia.
@@ -264,54 +265,6 @@ Lemma bij_push : forall l fs lb, bij l fs -> special lb = true -> bij ([] :: l) 
 Proof.
   intros l fs lb H Hs c1 c1' c2 c2' H1 H2. apply pairs_push in H1, H2; try exact Hs. exact (H _ _ _ _ H1 H2).
 Qed.
-
-(* ================================================================ domains only grow (per nesting level) *)
-Fixpoint dom_le (l l' : list scope) {struct l} : Prop :=
-  match l, l' with
-  | [], [] => True
-  | _ :: r, _ :: r' => (forall x, lookup_scopes x l <> None -> lookup_scopes x l' <> None) /\ dom_le r r'
-  | _, _ => False
-  end.
-
-Lemma dom_le_refl : forall l, dom_le l l.
-Proof. induction l as [|sc l IH]; cbn [dom_le]; auto. Qed.
-
-Lemma dom_le_trans : forall l1 l2 l3, dom_le l1 l2 -> dom_le l2 l3 -> dom_le l1 l3.
-Proof.
-  induction l1 as [|s1 l1 IH]; intros [|s2 l2] [|s3 l3] H1 H2; cbn [dom_le] in *; try contradiction; auto.
-  destruct H1 as [A1 B1], H2 as [A2 B2]. split; [auto|]. eapply IH; eassumption.
-Qed.
-
-Lemma dom_le_length : forall l l', dom_le l l' -> length l' = length l.
-Proof.
-  induction l as [|s l IH]; intros [|s' l'] H; cbn [dom_le] in H; try contradiction; [reflexivity|].
-  cbn [length]. f_equal. apply IH. exact (proj2 H).
-Qed.
-
-Lemma dom_le_look : forall l l' x, dom_le l l' -> lookup_scopes x l <> None -> lookup_scopes x l' <> None.
-Proof.
-  intros [|s l] [|s' l'] x H; cbn [dom_le] in H; try contradiction; auto. exact (proj1 H x).
-Qed.
-
-Lemma dom_le_skipn : forall m l l', dom_le l l' -> dom_le (skipn m l) (skipn m l').
-Proof.
-  induction m as [|m IH]; intros l l' H; [exact H|].
-  destruct l as [|s l], l' as [|s' l']; cbn [dom_le] in H; try contradiction; [exact Logic.I|].
-  cbn [skipn]. apply IH. exact (proj2 H).
-Qed.
-
-Lemma dom_le_declare : forall sc l x c, dom_le (sc :: l) (assoc_set x c sc :: l).
-Proof.
-  intros sc l x c. cbn [dom_le]. split; [|apply dom_le_refl].
-  intros y Hy. cbn [lookup_scopes] in *.
-  destruct (list_eq_dec N.eq_dec y x) as [->|Hne].
-  - rewrite assoc_set_same. discriminate.
-  - rewrite assoc_set_other by exact Hne. exact Hy.
-Qed.
-
-(* dom_le ([] :: l) l'' : the block's result, once popped, still binds what l bound *)
-Lemma dom_le_block : forall l l'', dom_le ([] :: l) l'' -> dom_le l (tl l'').
-Proof. intros l [|s l''] H; cbn [dom_le] in H; [contradiction|]. exact (proj2 H). Qed.
 
 (* ================================================================ no shadowing: a name is bound in at most one scope *)
 Fixpoint NS (l : list scope) : Prop :=
